@@ -107,9 +107,15 @@ func (qs *QueryStore) RebuildIndexes() error {
 		it := txn.NewIterator(badger.DefaultIteratorOptions)
 		defer it.Close()
 		prefix := []byte(qs.st.prefix)
+		initKey := []byte(`$` + qs.st.prefix + `init`)
 		for it.Seek(prefix); it.ValidForPrefix(prefix); it.Next() {
 			// Load item and unmarshal it
 			item := it.Item()
+			// Without a prefix, the iteration includes the init flag key
+			// set by Store.Init, which is not a value.
+			if bytes.Equal(item.Key(), initKey) {
+				continue
+			}
 			v := reflect.New(t)
 			err := item.Value(func(dta []byte) error {
 				return json.Unmarshal(dta, v.Interface())
